@@ -52,6 +52,8 @@ class World:
         self.ctrl, self.conn = simctl.make_pair("alice", flavour=flavour, horizon=20000, **kwargs)
         self.link = netstack.AutoLink(self.ctrl)
         self.live: List[Any] = []          # handles the program still holds
+        self.must_flush = False
+        self.cc_free_electron = False      # a carbon-carbon gate was emitted while no live qubit holds virtual ID 0
         self.failed: Optional[str] = None
 
     @property
@@ -66,6 +68,9 @@ class World:
 def events_for(w: World) -> List[Tuple]:
     n = len(w.live)
     ev: List[Tuple] = [("flush",)]
+    if w.must_flush:
+        # after an operation whose handles are consumed inside the subroutine only a flush can validate the agreement
+        return ev
     room = w.limit - n
     if room >= 1:
         ev.append(("new",))
@@ -73,11 +78,13 @@ def events_for(w: World) -> List[Tuple]:
         ev.append(("recv_keep", 1))
         ev.append(("create_seq_post", 2))
         ev.append(("recv_seq_post", 2))
-        ev.append(("create_context", 2))
-        ev.append(("recv_context", 2))
+        ev.append(("create_context_seq", 2))
+        ev.append(("recv_context_seq", 2))
     if room >= 2:
         ev.append(("create_keep", 2))
         ev.append(("recv_keep", 2))
+        ev.append(("create_context", 2))
+        ev.append(("recv_context", 2))
     ranks = sorted({0, n - 1}) if n else []
     for r in ranks:
         ev.append(("gate", r))
@@ -96,12 +103,17 @@ def apply(w: World, ev: Tuple) -> None:
     conn, epr = w.conn, w.epr
     if k == "flush":
         conn.flush()
+        w.must_flush = False
+        w.cc_free_electron = False
     elif k == "new":
         w.live.append(Qubit(conn))
     elif k == "gate":
         w.live[ev[1]].H()
     elif k == "cnot":
-        w.live[ev[1]].cnot(w.live[ev[2]])
+        a, b = w.live[ev[1]], w.live[ev[2]]
+        if w.config == "nv+transpiler" and a.qubit_id != 0 and b.qubit_id != 0 and all(q.qubit_id != 0 for q in w.live):
+            w.cc_free_electron = True
+        a.cnot(b)
     elif k == "meas_inplace":
         w.live[ev[1]].measure(inplace=True)
     elif k == "measure":
@@ -118,11 +130,13 @@ def apply(w: World, ev: Tuple) -> None:
             q.measure()
         f = epr.create_keep if k.startswith("create") else epr.recv_keep
         f(number=ev[1], post_routine=post, sequential=True)       # returned handles are consumed by the post routine
-    elif k in ("create_context", "recv_context"):
+        w.must_flush = True
+    elif k in ("create_context", "recv_context", "create_context_seq", "recv_context_seq"):
         f = epr.create_context if k.startswith("create") else epr.recv_context
-        with f(number=ev[1]) as (q, pair):
+        with f(number=ev[1], sequential=k.endswith("_seq")) as (q, pair):
             q.H()
             q.measure()
+        w.must_flush = True
     else:
         raise AssertionError(ev)
 
@@ -138,7 +152,10 @@ def classify(exc: Exception) -> str:
     if "outside the unit module" in msg or "not within the allocated unit module" in msg:
         return "virtual-id-outside-unit-module"
     if isinstance(exc, AssertionError):
-        return "sdk-assertion"
+        import traceback
+        tb = traceback.extract_tb(exc.__traceback__)
+        fn = next((f.name for f in reversed(tb) if "/netqasm/" in f.filename), "unknown")
+        return f"sdk-assertion:{fn}"
     return "raises-" + type(exc).__name__
 
 
@@ -187,14 +204,20 @@ def expand(shard):
             if err is not None:
                 i, cls, msg = err
                 where = "flush" if h2[i][0] == "flush" else h2[i][0]
-                add_violation(part, f"{cls}/{config}/{_blame(h2, i)}", f"{config}, budget {budget}: {where} fails: {msg}", case)
+                if h2[i][0] != "flush":
+                    fp = f"{cls}/{h2[i][0]}" if cls.startswith("sdk-assertion") else f"{cls}/{config}/{h2[i][0]}"
+                elif cls == "gate-on-unallocated-qubit" and w.cc_free_electron:
+                    fp = "gate-on-unallocated-qubit/carbon-carbon-gate-borrows-free-electron"
+                else:
+                    fp = f"{cls}/{config}/{_blame(h2, i)}"
+                add_violation(part, fp, f"{config}, budget {budget}: {where} fails: {msg}", case)
                 continue
             if ev[0] == "flush":
                 alloc = w.allocated()
                 active = sorted(q.qubit_id for q in w.conn.active_qubits)
                 live = sorted(q.qubit_id for q in w.live)
                 if active != alloc:
-                    add_violation(part, f"active-qubits-differ/{config}/{_blame(h2, len(h2) - 1)}",
+                    add_violation(part, f"active-qubits-differ/{_blame(h2, len(h2) - 1)}",
                                   f"{config}, budget {budget}: after flush conn.active_qubits ids {active} != controller allocated {alloc}",
                                   case, {"live_handles": live})
                     continue
@@ -219,7 +242,7 @@ def _blame(history, i) -> str:
         if k != "flush":
             kinds.append(k)
         j -= 1
-    pri = ["create_context", "recv_context", "create_seq_post", "recv_seq_post", "free", "create_keep", "recv_keep", "cnot",
+    pri = ["create_context_seq", "recv_context_seq", "create_context", "recv_context", "create_seq_post", "recv_seq_post", "free", "create_keep", "recv_keep", "cnot",
            "measure", "meas_inplace", "new", "gate"]
     for p in pri:
         if p in kinds:
@@ -257,7 +280,7 @@ def bfs(ctx, budget: int, config: str, depth: int, cap: int):
 def run(ctx):
     if ctx.tier == "quick":
         plan = {1: 5, 2: 4, 3: 4, 4: 3, 5: 3}
-        cap = 4000
+        cap = 12000
     else:
         plan = {1: 8, 2: 7, 3: 6, 4: 5, 5: 5}
         cap = 60000
@@ -269,7 +292,7 @@ def run(ctx):
     ctx.exhaustive = True
     ctx.total["samples"].append({"budget": 3, "config": "nv", "history": [["new"], ["create_keep", 1], ["flush"], ["measure", 0], ["flush"]]})
     for k in ("flush", "new", "gate", "cnot", "meas_inplace", "measure", "free", "create_keep", "recv_keep", "create_seq_post",
-              "recv_seq_post", "create_context", "recv_context"):
+              "recv_seq_post", "create_context", "recv_context", "create_context_seq", "recv_context_seq"):
         ctx.require(f"event/{k}", 1)
     ctx.require("flush-agrees", 50)
 
